@@ -54,7 +54,7 @@ let emit_dir ~tag ?(allow_zero_col = false) ?(nilreader = false) r ~v16 (d : dbd
   emit_dff ~tag ?kf ~s (gs ~tail:(rtail r) cb) (gs ~tail:(rtail r) ab) (if nilreader then None else Some files) opts
 
 (* the catalog parsers on one cluster's files; [wf]: spec expectations from the live rows *)
-let emit_parsers r ~tagp ~(wf : bool) (c : cluster) (opts : options option) =
+let emit_parsers ?(pgdb_only = false) r ~tagp ~(wf : bool) (c : cluster) (opts : options option) =
   let ver = (eff_opts opts).o_pgversion in
   let v16 = c.cl_v16 in
   if c.cl_pgdb <> [] then begin
@@ -68,6 +68,7 @@ let emit_parsers r ~tagp ~(wf : bool) (c : cluster) (opts : options option) =
       | _ -> Some d) None c.cl_dirs in
   match best with
   | None -> ()
+  | Some _ when pgdb_only -> ()
   | Some d ->
     let (cb, ab, _) = dir_bytes ~v16 d in
     let tl = rtail r in
@@ -121,9 +122,8 @@ let wf_strata : (string * bool * (rng -> prof -> prof)) array = [|
   "v15_auto", false, (fun r p -> with_layout p ~v16:false ~hint:(hint_auto r) ~det:DetAny);
   "v15_auto_stattarget_high_half_1to5", false, (fun r p -> with_layout { (plain p) with safe_misc = true } ~v16:false ~hint:(hint_auto r) ~det:DetLooks16);
   (* the hint wins over what auto-detection would say (first five rows 1..5 on a 16 layout named 12..15) *)
-  "hint_contradicts_layout", false, (fun r p -> let v16 = rbool r in
-                                      with_layout { (plain p) with safe_misc = true } ~v16 ~hint:(if v16 then pick r [| 12; 12; 15 |] else pick r [| 16; 16; 17 |])
-                                        ~det:(if v16 then DetOk5 else DetAny));
+  "hint_12_on_16_layout", false, (fun r p -> with_layout { (plain p) with safe_misc = true } ~v16:true ~hint:12 ~det:DetOk5);
+  "hint_16_on_15_layout", false, (fun r p -> with_layout { (plain p) with safe_misc = true } ~v16:false ~hint:16 ~det:DetAny);
   "catalogs_over_several_pages", false, (fun r p -> { p with cls_pp = 2; att_pp = pick r [| 4; 7 |]; db_pp = 1; dead = max 1 p.dead; ndb = min 2 p.ndb });
   "missing_directory", true, (fun r p -> { p with missing_dir = true; ndb = max 2 p.ndb; dbf = DbNone });
   "empty_pg_class_file", true, (fun r p -> { p with empty_class = pick r [| 1; 1; 2; 3 |]; ndb = max 2 p.ndb; dbf = DbNone });
@@ -181,7 +181,7 @@ let mal_case r (i : int) ~(as_dir : bool) ~(subs : bool) =
     let w = build_cluster r p in
     let opts = make_opts r p w in
     emit_fs ~tag:("mal/" ^ name) (enum_files w.c) opts;
-    if true then emit_parsers r ~tagp:("mal/" ^ name) ~wf:false w.c opts
+    if subs || m = MalDbOdd then emit_parsers ~pgdb_only:(not subs) r ~tagp:("mal/" ^ name) ~wf:false w.c opts
   end
 
 (* file-level damage on the bytes of a well-formed cluster *)
